@@ -43,26 +43,16 @@ static void check_same(const uint64_t* p, const uint64_t* snap, uint64_t n, cons
   for (uint64_t i = 0; i < n; ++i) VF_ASSERT(p[i] == snap[i], "read-only operand bit-for-bit unchanged");
 }
 
-void h_api(void) {
-#ifdef __CPROVER__
-  vf_nin = 0; /* the harness' own bookkeeping is (re)initialised here: C12 runs this harness with all static storage havocked */
-  vf_nowrap = 0;
-#endif
-  vf_fullmod fm;
 #if MT == 0
-  vf_fullmod_init_fft64(&fm, AVX);
-  const uint64_t DW = 1; /* dft words per coefficient */
-  const uint64_t BW = 1; /* big words per coefficient */
+#define DW 1 /* dft words per coefficient */
+#define BW 1 /* big words per coefficient */
 #else
-  vf_fullmod_init_ntt120(&fm);
-  const uint64_t DW = 4;
-  const uint64_t BW = 2;
+#define DW 4
+#define BW 2
 #endif
-  const MODULE* mod = &fm.mod;
-  /* snapshot of the module and of the precomputed objects (frame condition) */
-  vf_modsnap snap;
-  vf_snap(&snap, mod);
 
+/* one call of the entry point on buffers of its own */
+static void api_body(const MODULE* mod) {
 #if API == 1
 #if MT == 0
   VF_ASSERT(bytes_of_vec_znx_dft(mod, RSZ) == RSZ * NN * DW * 8, "bytes_of_vec_znx_dft");
@@ -151,6 +141,48 @@ void h_api(void) {
   check_same(a, a0, (uint64_t)ASZ * NN, "a_dft");
   check_same(pm, pm0, pw, "pmat");
   for (uint64_t i = (RSZ < NCOLS ? RSZ : NCOLS) * NN; i < (uint64_t)RSZ * NN; ++i) VF_ASSERT(res[i] == 0, "vmp output columns beyond ncols are exactly zero");
+#endif
+
+}
+
+#ifdef __CPROVER__
+int vf_marker; /* assigned when the module is built: the write-set analysis (vf.alg.uf) looks at what the entry point assigns afterwards */
+#endif
+#if defined(VF_TSAN_REPLAY) && !defined(__CPROVER__)
+#include <pthread.h>
+static void* vf_api_worker(void* arg) {
+  for (int it = 0; it < 20; ++it) api_body((const MODULE*)arg);
+  return 0;
+}
+#endif
+
+void h_api(void) {
+#ifdef __CPROVER__
+  vf_nin = 0; /* the harness' own bookkeeping is (re)initialised here: C12 runs this harness with all static storage havocked */
+  vf_nowrap = 0;
+#endif
+  vf_fullmod fm;
+#if MT == 0
+  vf_fullmod_init_fft64(&fm, AVX);
+#else
+  vf_fullmod_init_ntt120(&fm);
+#endif
+  const MODULE* mod = &fm.mod;
+  /* snapshot of the module and of the precomputed objects (frame condition) */
+  vf_modsnap snap;
+  vf_snap(&snap, mod);
+#ifdef __CPROVER__
+  vf_marker = 1;
+#endif
+#if defined(VF_TSAN_REPLAY) && !defined(__CPROVER__)
+  {
+    /* native confirmation of a write to shared static storage: the same call from two real threads on one module (first use included) */
+    pthread_t th[2];
+    for (int t = 0; t < 2; ++t) pthread_create(&th[t], 0, vf_api_worker, (void*)mod);
+    for (int t = 0; t < 2; ++t) pthread_join(th[t], 0);
+  }
+#else
+  api_body(mod);
 #endif
 
   /* frame: the module, its virtual table and every precomputed object are bit-for-bit what they were */
